@@ -54,6 +54,20 @@ class Shadow:
     def delete(self, k):
         self.recs.pop(k, None)
 
+    def inc(self, k, delta, e):
+        """IncrementInt64: a missing key / void content starts from 0, int64 content is incremented, any
+        other content type is an error and nothing changes"""
+        if delta == 0:
+            return                      # the gateway refuses IncrementBy == 0
+        r = self.recs.get(k)
+        if r is None:
+            self.recs[k] = {"t": "i64", "v": delta, "created": 0, "updated": 0, "expire": e}
+        elif r["t"] in ("i64", "void"):
+            r["v"] = (r["v"] if r["t"] == "i64" else 0) + delta
+            r["t"] = "i64"
+            if e:
+                r["expire"] = e
+
     def attr(self, idx, k):
         """sort attribute of key k under index idx, or None when the record does not carry it"""
         r = self.recs.get(k)
@@ -216,6 +230,9 @@ def judge(c):
             sh.set(f[1], f[2], int(f[3]), int(f[4]), int(f[5]), int(f[6]))
         elif f[0] == "del" and len(f) == 2:
             sh.delete(f[1])
+        elif f[0] == "inc" and len(f) == 4 and int(f[2]) != 0:
+            hist.on_set(sh, f[1], 0, 0, int(f[3]))
+            sh.inc(f[1], int(f[2]), int(f[3]))
         if f[0] != "q" or len(f) != 8:
             if impl != model:
                 mism.append(i)
@@ -300,6 +317,8 @@ def spec_violated(rep):
             sh.set(f[1], f[2], int(f[3]), int(f[4]), int(f[5]), int(f[6]))
         elif f[0] == "del" and len(f) == 2:
             sh.delete(f[1])
+        elif f[0] == "inc" and len(f) == 4:
+            sh.inc(f[1], int(f[2]), int(f[3]))
         elif f[0] == "q" and len(f) == 8 and i == last:
             if impl.startswith("r "):
                 bad = page_verdict(sh, parse_q(f), [k for k in impl[2:].split(",") if k])
